@@ -27,9 +27,9 @@ def imageT (cap : Nat) : DT → DT → Option DT
       if isSubsetOf cap s s' then pure (.list u s) else none
   | _, _ => none
 
-def mapM' (f : V → Option V) : List V → Option (List V)
+def mapOpt (f : V → Option V) : List V → Option (List V)
   | [] => some []
-  | v :: vs => do pure ((← f v) :: (← mapM' f vs))
+  | v :: vs => do pure ((← f v) :: (← mapOpt f vs))
 
 /-- the injection's `value`: the converted value (`none`: refused) -/
 def conv (cap : Nat) : DT → DT → V → Option V
@@ -39,7 +39,7 @@ def conv (cap : Nat) : DT → DT → V → Option V
   | .opt _, .opt b, .some (.i n) => if containsV cap b n then some (.some (.i n)) else none
   | .pair a b, .pair c d, .pair x y => do pure (.pair (← conv cap a c x) (← conv cap b d y))
   | .list t _, .list t' s', .list vs => do
-      let ws ← mapM' (conv cap t t') vs
+      let ws ← mapOpt (conv cap t t') vs
       if containsV cap s' (Int.ofNat ws.length) then pure (.list ws) else none
   | _, _, _ => none
 
